@@ -22,6 +22,12 @@ impl<'a> Toks<'a> {
             pos: 0,
         }
     }
+    pub fn toks_len(&self) -> usize {
+        self.toks.len()
+    }
+    pub fn tok_at(&self, i: usize) -> Option<&'a str> {
+        self.toks.get(i).copied()
+    }
     pub fn next(&mut self) -> PResult<&'a str> {
         if self.pos >= self.toks.len() {
             return Err("eof".into());
